@@ -57,7 +57,7 @@ package html
 //@   tier thorough
 
 // C14: safety sweep of the page-assembly functions the property names.
-//@ sweep C14: getIndexLetter, getIndexLetterForSurname, surnameStartsWith, PublishHeader.WriteHTMLTo, SurnameLink.WriteHTMLTo
+//@ sweep C14: getIndexLetter, getIndexLetterForSurname, surnameStartsWith, PublishHeader.WriteHTMLTo
 //@ sweep C14: IndividualPage.WriteHTMLTo, IndividualNameAndSex.WriteHTMLTo, IndividualAdditionalNames.WriteHTMLTo
 //@ sweep C14: EventDate.WriteHTMLTo
 
